@@ -4,7 +4,15 @@ pub mod life;
 
 pub type Scenario = fn();
 
-pub const ALL: &[(&str, Scenario)] = &[("life", life::life)];
+pub const ALL: &[(&str, Scenario)] = &[
+    ("life", life::life),
+    ("cq", life::cq),
+    ("blocked", life::blocked),
+    ("fd", life::fd),
+    ("restart", life::restart),
+    ("pool", life::pool),
+    ("teardown", life::teardown),
+];
 
 pub fn find(name: &str) -> Option<Scenario> {
     ALL.iter().find(|(n, _)| *n == name).map(|(_, f)| *f)
